@@ -18,7 +18,7 @@ DEVIATIONS = {
 def families(tier):
     """input families: (name, [items]) ; items are str or ('sym', k) placeholders"""
     fams = []
-    Lmax = 4 if tier == "quick" else 6
+    Lmax = 4 if tier == "quick" else 5        # 6 arbitrary code points did not finish within 70 minutes (measured)
     for L in range(1, Lmax + 1):
         fams.append(("any%d" % L, [("sym", L)]))
     directed = ["%p", "%%", "%Ak", "%{fid}", "%{projid}", "%{mirror-count}", "%{stripe-count}", "%{stripe-size}",
@@ -116,7 +116,7 @@ def run(ctx, rep, tier):
     cov = B.coverage_common()
     cov.update(explanation="parse(\"-printf '<s>'\") executed symbolically from MIR for every family; z3 decides equality with the "
                "specification scanner for all strings s in the family",
-               bounds=dict(any_string_max_len=4 if tier == "quick" else 6, alphabet="all Unicode scalar values except the single quote",
+               bounds=dict(any_string_max_len=4 if tier == "quick" else 5, alphabet="all Unicode scalar values except the single quote",
                            directed="each documented directive/escape with 1 (thorough: 2) arbitrary characters on both sides"),
                outside="longer strings; strings containing a single quote (delivered through double quotes, not explored); "
                        "1-2 digit octal escapes and %{xattr:NAME} with non-alphabetic NAME (statement silent)",
